@@ -99,7 +99,9 @@ func (ps *ProcessSet) Tracer() tracing.ITracer { return ps.tracer }
 func (ps *ProcessSet) Locator() data.IFlowDataLocator { return ps.locator }
 
 func (ps *ProcessSet) StartAll(ctx context.Context) error {
-	go ps.run(ctx)
+	// the router sends traces (and registers relays) on the set's tracer: it is a registered
+	// sender of it, or a trace sent after that tracer has terminated would block for ever
+	go ps.run(ctx, ps.tracer.RegisterSender())
 
 	for _, process := range ps.executes {
 		err := process.StartAll(ctx)
@@ -130,7 +132,8 @@ func (ps *ProcessSet) WaitUntilComplete(ctx context.Context) (complete bool) {
 	return
 }
 
-func (ps *ProcessSet) run(ctx context.Context) {
+func (ps *ProcessSet) run(ctx context.Context, sender tracing.ISenderHandle) {
+	defer sender.Done()
 	for {
 		select {
 		case ch := <-ps.mch:
